@@ -212,6 +212,8 @@ type caseT struct {
 	Runs   int               `json:"runs"` // executions of the same plan
 	Valid  bool              `json:"valid"`
 	Extra  map[string]string `json:"extra,omitempty"`
+	// "" = schema built by NewSchema alone; otherwise extended afterwards by Schema.AppendType (see schemaForV)
+	Variant string `json:"variant,omitempty"`
 }
 
 type modelResp struct {
@@ -288,17 +290,99 @@ func guarded(f func()) (problem string, took time.Duration) {
 	}
 }
 
-var schemaCache = map[int]*built{}
+var schemaCache = map[string]*built{}
 
-func schemaFor(m int) (*built, error) {
-	if b, ok := schemaCache[m]; ok {
+func schemaFor(m int) (*built, error) { return schemaForV(m, "") }
+
+// schemaForV: the family schema with m implementers, built in one go ("") or EXTENDED after NewSchema by
+// Schema.AppendType: "append-implementer" (the last implementer T(m-1) is appended), "append-several" (the last two
+// implementers and an unrelated type, one AppendType each), "append-unrelated" (an object type nothing refers to).
+// The description handed to the model is always that of the FINAL schema.
+func schemaForV(m int, variant string) (*built, error) {
+	key := fmt.Sprintf("%d/%s", m, variant)
+	if b, ok := schemaCache[key]; ok {
 		return b, nil
 	}
-	b, err := build(familySchema(m))
+	b, err := buildVariant(m, variant)
 	if err == nil {
-		schemaCache[m] = b
+		schemaCache[key] = b
 	}
 	return b, err
+}
+
+func buildVariant(m int, variant string) (*built, error) {
+	full := familySchema(m)
+	if variant == "" {
+		return build(full)
+	}
+	withheld := map[string]bool{}
+	switch variant {
+	case "append-implementer":
+		if m >= 3 {
+			withheld[fmt.Sprintf("T%d", m-1)] = true
+		}
+	case "append-several":
+		if m >= 4 {
+			withheld[fmt.Sprintf("T%d", m-1)] = true
+			withheld[fmt.Sprintf("T%d", m-2)] = true
+		}
+	}
+	unrelated := variant == "append-unrelated" || variant == "append-several"
+	base := &gq.SchemaDesc{Query: full.Query, Mutation: full.Mutation, Subscription: full.Subscription, Directives: full.Directives}
+	for _, t := range full.Types {
+		if !withheld[t.Name] {
+			base.Types = append(base.Types, t)
+		}
+	}
+	if unrelated {
+		full.Types = append(full.Types, gq.TypeDesc{Kind: "OBJECT", Name: "Xunrelated", Fields: []gq.FieldDesc{{Name: "leaf", Type: "String"}}})
+	}
+	b := &built{desc: full, w: &world{desc: full}}
+	var objects map[string]*graphql.Object
+	bt, err := gq.Build(base, gq.Hooks{
+		Resolve: func(typeName, fieldName string) graphql.FieldResolveFn { return b.w.resolve },
+		ResolveType: func(abstractName string, objs map[string]*graphql.Object) graphql.ResolveTypeFn {
+			objects = objs // the builder's own map: objects appended below are entered into it as well
+			return func(p graphql.ResolveTypeParams) *graphql.Object {
+				if n, ok := p.Value.(*wnode); ok {
+					return objs[n.rt]
+				}
+				return nil
+			}
+		},
+	})
+	if err != nil {
+		return nil, err
+	}
+	schema := bt.Schema
+	iface, _ := bt.Types["I"].(*graphql.Interface)
+	q := bt.Objects["Q"]
+	var names []string
+	for n := range withheld {
+		names = append(names, n)
+	}
+	sort.Strings(names)
+	for _, n := range names {
+		obj := graphql.NewObject(graphql.ObjectConfig{Name: n, Interfaces: []*graphql.Interface{iface}, Fields: graphql.Fields{
+			"leaf": &graphql.Field{Type: graphql.String, Resolve: b.w.resolve},
+			"i":    &graphql.Field{Type: iface, Resolve: b.w.resolve},
+			"q":    &graphql.Field{Type: q, Resolve: b.w.resolve},
+		}})
+		if objects != nil {
+			objects[n] = obj
+		}
+		if err := schema.AppendType(obj); err != nil {
+			return nil, fmt.Errorf("AppendType(%s): %v", n, err)
+		}
+	}
+	if unrelated {
+		x := graphql.NewObject(graphql.ObjectConfig{Name: "Xunrelated", Fields: graphql.Fields{"leaf": &graphql.Field{Type: graphql.String}}})
+		if err := schema.AppendType(x); err != nil {
+			return nil, fmt.Errorf("AppendType(Xunrelated): %v", err)
+		}
+	}
+	b.schema = schema
+	return b, nil
 }
 
 type runner struct {
@@ -316,7 +400,7 @@ func (r *runner) one(c caseT) *outcome {
 			os.WriteFile(filepath.Join(run.ReplayDir, "inflight.json"), b, 0o644)
 		}
 	}
-	b, err := schemaFor(c.M)
+	b, err := schemaForV(c.M, c.Variant)
 	if err != nil {
 		run.CheckError("schema build: " + err.Error())
 		return nil
@@ -438,6 +522,10 @@ func (r *runner) one(c caseT) *outcome {
 			viol(fmt.Sprintf("possible-type table entries handed out during ValidateDocument differ from the model: go %d, model %d (proved bound %d)", o.Validate[sitePossibleTypes], m.PtValidation, m.PtBound), map[string]interface{}{"model": m})
 			return o
 		}
+		if o.Exec[sitePossibleTypes] != 0 {
+			viol(fmt.Sprintf("PlanQuery + ExecutePlan asked for possible-type tables (%d entries; PlanQuery alone %d) on a schema whose abstract types all have a ResolveType function: neither the lazily planned sub-selections nor the completion of abstract values may scan the possible types (schema variant %q)", o.Exec[sitePossibleTypes], o.Plan[sitePossibleTypes], c.Variant), map[string]interface{}{"model": m})
+			return o
+		}
 		if o.Plan[sitePossibleTypes] != 0 {
 			viol(fmt.Sprintf("PlanQuery asked for possible-type tables (%d entries): the planner decides type conditions by a map lookup, its work must not depend on the number of possible types", o.Plan[sitePossibleTypes]), map[string]interface{}{"model": m})
 			return o
@@ -512,7 +600,10 @@ func (r *runner) one(c caseT) *outcome {
 		}
 	}
 	nontrivial := o.Exec[pc] >= 2 || o.Validate[graphql.VerifSiteFindConflict] >= 1
-	key := fmt.Sprintf("%s|%d|%s|%v|%v|%d", c.Src, c.M, c.Op, c.Vars, c.Mode, c.Runs)
+	key := fmt.Sprintf("%s|%d|%s|%v|%v|%d|%s", c.Src, c.M, c.Op, c.Vars, c.Mode, c.Runs, c.Variant)
+	if c.Variant != "" {
+		run.Tag("schema:" + c.Variant)
+	}
 	run.Case(key, nontrivial, map[string]interface{}{"family": c.Family, "n": c.N, "m": c.M, "mode": c.Mode.Name, "go": o, "src": hxTrunc(c.Src, 160)})
 	run.Tag("family:" + c.Family)
 	run.Tag("data:" + c.Mode.Name)
@@ -988,6 +1079,9 @@ func randomCase(r *hx.Rng) caseT {
 	}
 	c := caseT{Family: "random-fragment-graph", N: g.nFrag, M: g.m, Src: b.String(), Op: op,
 		Mode: dataMode{Name: r.Pick([]string{"nil", "spine", "all", "all"}), MaxDepth: r.Range(1, 3), ListLen: r.Range(0, 2), RtShift: r.Intn(3)}, Runs: r.Range(1, 2)}
+	if r.Chance(1, 4) { // schemas extended by AppendType after NewSchema
+		c.Variant = r.Pick([]string{"append-unrelated", "append-implementer", "append-several"})
+	}
 	if g.dyn {
 		c.Vars = map[string]bool{"v": r.Chance(1, 2), "w": r.Chance(1, 2)}
 		if r.Chance(1, 2) {
